@@ -14,6 +14,9 @@ Definition qstd_jvp := std_jvp Q 0 Qplus Qmult Qminus Qdiv qofnat.
 Definition qprod := kprod Q 1 Qmult.
 Definition qprod_vjp := prod_vjp Q Qmult Qdiv.
 Definition qprod_jvp := prod_jvp Q 0 Qplus Qmult Qdiv.
+Definition qsumsq := sumsq Q 0 Qplus Qmult.
+Definition qnorm_vjp := norm_vjp Q Qmult Qdiv.
+Definition qnorm_jvp := norm_jvp Q 0 Qplus Qmult Qdiv.
 Definition qcumsum := cumsum Q 0 Qplus.
 Definition qcumsum_vjp := cumsum_vjp Q 0 Qplus.
 
@@ -26,7 +29,7 @@ Fixpoint ql_eqb (a b : list Q) : bool :=
 Definition qo_eqb (m : Q) (o : option Q) : bool := match o with Some j => Qeq_bool m j | None => true end.
 
 Record caseStat := {
-  t_fn : nat;                 (* 0 var, 1 std, 2 prod, 3 cumsum *)
+  t_fn : nat;                 (* 0 var, 1 std, 2 prod, 4 norm (2 / Frobenius), otherwise cumsum *)
   t_d : nat;                  (* ddof *)
   t_x : list Q;               (* the fibre *)
   t_g : list Q;               (* cotangent of this fibre's result (one entry; the whole list for cumsum) *)
@@ -52,6 +55,9 @@ Definition checkstat (c : caseStat) : nat :=
                && qo_eqb (qstd_jvp c.(t_d) x c.(t_v) ans) (jo c.(t_jvp))
     | 2%nat => Qeq_bool (qprod x) ans && ql_eqb (qprod_vjp x ans g) c.(t_vjp)
                && qo_eqb (qprod_jvp x c.(t_v) ans) (jo c.(t_jvp))
+    | 4%nat => Qeq_bool (ans * ans) (qsumsq x) && Qle_bool 0 ans && negb (Qeq_bool ans 0)
+               && ql_eqb (qnorm_vjp x ans g) c.(t_vjp)
+               && qo_eqb (qnorm_jvp x c.(t_v) ans) (jo c.(t_jvp))
     | _ => ql_eqb (qcumsum x) c.(t_val) && ql_eqb (qcumsum_vjp c.(t_g)) c.(t_vjp)
            && match c.(t_jvp) with Some j => ql_eqb (qcumsum c.(t_v)) j | None => true end
     end in
